@@ -32,8 +32,8 @@ CHECKS.update({
 CHECKS.update({
  'C05': dict(
    technique='Lean 4 proof (sizes computed by the runtime walk model = image length, any nesting/extension; encoder end position) + model of the generated trait-level formula + Layer R on generated schemas; per-type-pair kernel arithmetic of flat_group_base::size_bytes proved over the extracted kernel (C05Flat, when present)',
-   text='level_size, group_size, data_size, cursor_size_after_encode, flat_level_size. Correspondence: every size query of the real generated code (message, each group, each entry, each data member, cursor-based size after a full traversal, message_traits<>::size_bytes(total counts, total data)) on reference images of generated schemas, against the image length and against Gen.SizeFormula.',
-   note='Trusted as C02. The equality of the trait-level formula with the image length is only checked differentially (not yet a theorem). Known finding: cursor-based size of a member-less message.'),
+   text='level_size, group_size, data_size, cursor_size_after_encode, flat_level_size, trait_size_eq (the generated trait-level formula with the documented parameter meaning equals header + image length for every group tree and value, by mutual induction with a linearity lemma for aggregated entry counts), C05Flat.flat_size_exact / flat_size_mod / flat_size_model (the extracted flat_group_base::size_bytes kernel is exact for all 16 dimension type pairs whenever the size fits size_t, never UB). Correspondence: every size query of the real generated code (message, each group, each entry, each data member, cursor-based size after a full traversal, message_traits<>::size_bytes(total counts, total data)) on reference images of generated schemas, against the image length and against Gen.SizeFormula.',
+   note='Trusted as C02; Gen.SizeFormula is tied to the real generated message_traits<>::size_bytes by the differential check. Known finding: cursor-based size of a member-less message.'),
  'C17': dict(
    technique='Lean 4 proof over the member-wise write model of the generated fillers (read-back and frame for arbitrary non-overlapping member layouts) + Layer R on generated header layouts',
    text='fill_values (every written member reads back the schema value when it fits), fill_frame (no other byte of the header or behind it changes; length preserved), message_filler_is_fields / group_filler_is_fields (what is written: schemaId, templateId, version, blockLength / blockLength, numInGroup, + declared numGroups/numVarDataFields), block_length_value (explicit or computed), sorted_members_disjoint. Correspondence: 40/200 generated schemas whose header composites are permuted, offset, padded, ref-typed, of every unsigned type, with optional counters; real fillers on random pre-filled buffers, all bytes compared; returned view must be the header.',
